@@ -209,7 +209,7 @@ async fn body(seed: u64, trace: Arc<Trace>, threaded: bool) -> Outcome {
                         let x = *sp.pick(&movable);
                         if x != target {
                             // expected outcome decided from statuses read BEFORE the call (single-thread engine: exact)
-                            let refuse = cells[x].get_status() >= ActorStatus::Draining || cells[target].get_status() >= ActorStatus::Draining;
+                            let refuse = cells[x].get_status() >= ActorStatus::Stopping || cells[target].get_status() >= ActorStatus::Draining;
                             let before_sup = cells[x].try_get_supervisor().map(|s| s.get_id());
                             tr.log(Ev::Call { client: 300 + t as u32, op: "link", arg: (x as u64) << 16 | target as u64 });
                             cells[x].link(cells[target].clone());
@@ -220,7 +220,7 @@ async fn body(seed: u64, trace: Arc<Trace>, threaded: bool) -> Outcome {
                             if refuse && linked && before_sup != Some(cells[target].get_id()) && !threaded {
                                 tr.online_violation(
                                     "link-onto-exiting",
-                                    format!("link({x} -> {target}) took effect although an endpoint was draining/stopping/stopped before the call"),
+                                    format!("link({x} -> {target}) took effect although the child was stopping/stopped or the supervisor draining/stopping/stopped before the call"),
                                 );
                             }
                         }
